@@ -62,7 +62,7 @@ def edit_cases(tier):
     """histories of in-place edits of one Covout object (outcome / baseline changes followed by update_outcomes(), zero-uncertainty sampling)"""
     vals = [BASE - 1, BASE + 0.05, BASE + 1.5]
     for n in (2, 3):
-        ops = [("out", k, v) for k in range(n) for v in vals] + [("base", None, v) for v in (0.0, BASE + 0.6)] + [("sample", None, None)]
+        ops = [("out", k, v) for k in range(n) for v in vals] + [("base", None, v) for v in (0.0, BASE + 0.6)] + [("sample", None, None), ("callerdict", None, None)]
         depth = 2 if tier == "quick" else 3
         for inter in INTER:
             for d in range(1, depth + 1):
@@ -119,7 +119,8 @@ def run_edits(case):
     nm = names(n)
     start = [BASE + 0.9, BASE + 0.5, BASE - 0.3][:n]
     imp = f"{nm[0]}+{nm[1]}={BASE + 0.7!r}"
-    co = at.Covout("par", "pop", dict(zip(nm, start)), cov_interaction=inter, imp_interaction=imp, baseline=BASE, uncertainty=0.0)
+    callers = dict(zip(nm, start))  # the dictionary the caller built the object from stays the caller's: later edits of it are not edits of the object
+    co = at.Covout("par", "pop", callers, cov_interaction=inter, imp_interaction=imp, baseline=BASE, uncertainty=0.0)
     progs = dict(zip(nm, start))
     base = BASE
     vs = []
@@ -135,6 +136,9 @@ def run_edits(case):
             co.baseline = v
             base = v
             co._interactions = {kk: (BASE + 0.7) - v for kk in co._interactions}
+            co.update_outcomes()
+        elif op == "callerdict":
+            callers[nm[0]] = callers[nm[0]] + 0.37
             co.update_outcomes()
         else:
             np.random.seed(0)
